@@ -263,8 +263,8 @@ def finish(ctx):
 
 def tier_params(tier):
     if tier == "thorough":
-        return {"l_count": 60000, "mixed": 1200, "cb": 320, "twins": 240, "cap": 40000, "max_states": 400}
-    return {"l_count": 4000, "mixed": 160, "cb": 64, "twins": 48, "cap": 6000, "max_states": 250}
+        return {"l_count": 300000, "mixed": 1200, "cb": 320, "twins": 240, "cap": 40000, "max_states": 400}
+    return {"l_count": 6000, "mixed": 160, "cb": 64, "twins": 48, "cap": 6000, "max_states": 250}
 
 
 def stage_l(ctx, prop=None, count=None):
